@@ -116,3 +116,10 @@ Theorem c05_option_tags_regular :
   Wiring.option_tags_irregular = [] /\ Wiring.option_flags_unregistered = [] /\ Wiring.option_flags_untagged = [].
 Proof. repeat split; vm_compute; reflexivity. Qed.
 Print Assumptions c05_option_tags_regular.
+
+(* HashNonce REGENERATED on this run creates its hasher inside the call (no state shared between the logins in flight): the
+   `hash` of c05_nonce is a function of the nonce alone *)
+Theorem c05_nonce_hash_is_per_call :
+  Wiring.hash_nonce_state = [s "hasher := sha256.New()"; s "hasher.Write(nonce)"; s "sum := hasher.Sum(nil)"].
+Proof. vm_compute. reflexivity. Qed.
+Print Assumptions c05_nonce_hash_is_per_call.
